@@ -597,10 +597,11 @@ def table_roundtrip():
 
 
 import c12s11     # noqa: E402  (needs the helpers above)
+import c12s15     # noqa: E402
 
 PROPERTY = Property(
     pid="C12",
-    streams=[FilterStream(), ExtractStream(), ChainStream(), FileStream()] + pystr.STREAMS + c12s11.STREAMS,
+    streams=[FilterStream(), ExtractStream(), ChainStream(), FileStream()] + pystr.STREAMS + c12s11.STREAMS + c12s15.STREAMS,
     assumptions=[
         "CPython str.index/in/slicing are modelled by Py.findSub/take/drop (validated by the correspondence; the shared pystr streams "
         "compare the Python string mirrors of Py/Str.lean with CPython over all of Unicode and on enumerated strings)",
